@@ -170,9 +170,19 @@ fn table_perturb(em: &mut Emitter) {
         step(Ev::Balance(BalIn { asset: 1, total: 77, free: 66, t: 7 })),
         step(Ev::Shutdown),
     ];
+    // process_with_audit on a stream without a terminal record: run() reads the replayed part too
+    let open_ended: Vec<(Ev, TickScript)> = base[..base.len() - 1].to_vec();
+    for i in 0..open_ended.len() {
+        for p in [Perturb::Delete(i), Perturb::Dup(i), Perturb::Replay(i), Perturb::Window(i, 2), Perturb::Window(i, 3), Perturb::Window(0, i + 1)] {
+            let mut inp = input(0, vec![], open_ended.clone());
+            inp.s_init = 4;
+            inp.perturb = p;
+            em.emit(run_case(&inp, "table"));
+        }
+    }
     for mode in 0..3u8 {
         for i in 0..=base.len() {
-            for p in [Perturb::Delete(i), Perturb::Dup(i), Perturb::Swap(i), Perturb::Replay(i)] {
+            for p in [Perturb::Delete(i), Perturb::Dup(i), Perturb::Swap(i), Perturb::Replay(i), Perturb::Window(i, 2), Perturb::Window(i, 4)] {
                 let mut inp = input(mode, vec![], base.clone());
                 inp.s_init = 9;
                 inp.perturb = p;
@@ -409,7 +419,8 @@ fn random_case(rng: &mut Rng, max_len: u64, adversarial: bool) -> Input {
     let n = feed.len() + 1;
     let perturb = if rng.chance(1, 4) {
         let i = rng.below(n as u64 + 1) as usize;
-        match rng.below(4) {
+        match rng.below(6) {
+            4 | 5 => Perturb::Window(i, 2 + rng.below(4) as usize),
             0 => Perturb::Delete(i),
             1 => Perturb::Dup(i),
             2 => Perturb::Swap(i),
